@@ -32,6 +32,9 @@ class AbsSocket:
     def connect(self, address):
         raise NotImplementedError("external")
 
+    def recv(self, size):
+        raise NotImplementedError("external")
+
 
 class AbsSettings:
     """Connection settings as the TCP classes read them: address and port."""
